@@ -1,6 +1,6 @@
 (* C01link — the first instance of C01_full with no gap: for every program q of the fragment F0 /\ F
    (identity, scalar literals, pipe, comma, empty, t[], t.k, if/else, try/catch and ?, error, length,
-   `src as $x | body`, $x, array construction [q], reduce, foreach (2- and 3-argument), the alternative operator //) that compiles, every input v (integers, strings, arrays, objects), the final
+   `src as $x | body`, $x, array construction [q], reduce, foreach (2- and 3-argument), the alternative operator //, label / break) that compiles, every input v (integers, strings, arrays, objects), the final
    code emitted for q (coq/c01vm/Compile.v: tied to compiler.go by instruction-list comparison on every
    sampled program) run on the VM (coq/c01vm/VM.v, natives = Sem's) produces exactly the outputs and the ending
    that the reference semantics Sem.observe gives for the translated program (tied to gojq by the C01
@@ -27,7 +27,7 @@ Print Assumptions C01link_vm_is_sem.
 
 (* the middle link on its own: Den (for Sem's natives) and den0 agree up to Sem's skips *)
 Theorem C01link_den_is_den0 : forall q q', tr q = Some q' ->
-  forall v, R (den0 false q' [] (emb_v v)) (c01vm.Den.den sem_natives q [] v).
+  forall v, R [] (den0 false q' [] (emb_v v)) (c01vm.Den.den sem_natives q [] v).
 Proof. exact den_link_sem. Qed.
 Print Assumptions C01link_den_is_den0.
 
@@ -98,6 +98,35 @@ Example C01link_nonvacuous_foreach :
       let o := observe builtin_defs 60 50 false [] (emb q') (emb_v v) in
       let r := c01vm.VM.run sem_natives code 900 (c01vm.VM.init v) in
       List.length (fst o) = 2%nat /\ nth 1 (fst o) VNull = VArr [VInt 1; VInt 7] /\
+      fst o = map emb_v (fst r) /\ end_rel (snd o) (snd r)
+  | _, _ => False
+  end.
+Proof. vm_compute. repeat split; reflexivity. Qed.
+
+(* label / break: [label $a | (1, (label $b | 2, break $a, 3), 4)] (a break through an inner label), and a break
+   from inside try, under a generator: [label $a | .[] | try (if .a then ., break $a else error end) catch 5] *)
+Example C01link_nonvacuous_label :
+  let q := c01vm.Syntax.QComma
+     (c01vm.Syntax.QArray (c01vm.Syntax.QLabel 0%N
+        (c01vm.Syntax.QComma (c01vm.Syntax.QConst (c01vm.Syntax.VNum 1))
+          (c01vm.Syntax.QComma
+             (c01vm.Syntax.QLabel 1%N (c01vm.Syntax.QComma (c01vm.Syntax.QConst (c01vm.Syntax.VNum 2))
+                (c01vm.Syntax.QComma (c01vm.Syntax.QBreak 0%N) (c01vm.Syntax.QConst (c01vm.Syntax.VNum 3)))))
+             (c01vm.Syntax.QConst (c01vm.Syntax.VNum 4))))))
+     (c01vm.Syntax.QArray (c01vm.Syntax.QLabel 0%N
+        (c01vm.Syntax.QPipe (c01vm.Syntax.QIter c01vm.Syntax.QId)
+           (c01vm.Syntax.QTry
+              (c01vm.Syntax.QIf (c01vm.Syntax.QIndex c01vm.Syntax.QId (c01vm.Syntax.VStr (codes "a")))
+                 (c01vm.Syntax.QComma c01vm.Syntax.QId (c01vm.Syntax.QBreak 0%N))
+                 (c01vm.Syntax.QCall0 c01vm.Syntax.F0Error))
+              (Some (c01vm.Syntax.QConst (c01vm.Syntax.VNum 5))))))) in
+  let v := c01vm.Syntax.VArr [c01vm.Syntax.VObj [(codes "a", c01vm.Syntax.VNull)];
+                              c01vm.Syntax.VObj [(codes "a", c01vm.Syntax.VNum 1)]; c01vm.Syntax.VNum 2] in
+  match tr q, c01vm.Compile.compile q with
+  | Some q', Some code =>
+      let o := observe builtin_defs 60 50 false [] (emb q') (emb_v v) in
+      let r := c01vm.VM.run sem_natives code 900 (c01vm.VM.init v) in
+      o = ([VArr [VInt 1; VInt 2]; VArr [VInt 5; VObj [(codes "a", VInt 1)]]], EndNormal) /\
       fst o = map emb_v (fst r) /\ end_rel (snd o) (snd r)
   | _, _ => False
   end.
